@@ -11,14 +11,14 @@ EXTENDS XcpNSOps
 (***************************************************************************)
 CONSTANT Scenarios              \* set of scenario records explored
 
-VARIABLES sc, fs, visited, pending, st, exit,
+VARIABLES sc, fs, visited, pending, half, st, exit,
           vis, refr, prot      \* Visits(sc), Reference(sc), Protected(sc): functions of sc, computed once per behaviour
-vars == <<sc, fs, visited, pending, st, exit, vis, refr, prot>>
+vars == <<sc, fs, visited, pending, half, st, exit, vis, refr, prot>>
 
 Init ==
   /\ sc \in Scenarios
   /\ fs = FS0(sc)
-  /\ visited = {} /\ pending = {}
+  /\ visited = {} /\ pending = {} /\ half = {}
   /\ st = "start" /\ exit = -1
   /\ vis = (IF Rejected(sc) THEN {} ELSE Visits(sc))
   /\ refr = Reference(sc)
@@ -27,7 +27,7 @@ Init ==
 MainValidate ==
   /\ st = "start"
   /\ IF Rejected(sc) THEN st' = "done" /\ exit' = 1 ELSE st' = "walk" /\ exit' = exit
-  /\ UNCHANGED <<sc, fs, visited, pending, vis, refr, prot>>
+  /\ UNCHANGED <<sc, fs, visited, pending, half, vis, refr, prot>>
 
 \* next entry the walker may yield: sources in order, a directory before what is inside it
 CanVisit(v) ==
@@ -41,29 +41,38 @@ WalkStep ==
        /\ CanVisit(v)
        /\ visited' = visited \cup {v}
        /\ LET to == Target(sc, v) IN
-          IF v.err \/ (sc.n /\ ExistsL(fs, to))
+          IF v.err \/ (sc.n /\ Probe(fs, to))
             THEN st' = "fail" /\ UNCHANGED <<fs, pending>>
           ELSE IF v.k = "dir"
             THEN LET r == MkdirAll(fs, to) IN
                  IF r.ok THEN fs' = r.fs /\ UNCHANGED <<st, pending>>
                          ELSE st' = "fail" /\ UNCHANGED <<fs, pending>>
           ELSE pending' = pending \cup {v} /\ UNCHANGED <<fs, st>>
-  /\ UNCHANGED <<sc, exit, vis, refr, prot>>
+  /\ UNCHANGED <<sc, exit, half, vis, refr, prot>>
 
 WorkStep ==
   /\ st \in {"walk", "fail"}            \* after a failure the other threads may still finish what they hold
-  /\ \E v \in pending :
-       LET r == ExecOp(fs, sc, v) IN
-       /\ pending' = pending \ {v}
-       /\ fs' = r.fs
-       /\ st' = IF r.ok THEN st ELSE "fail"
+  /\ \/ \E v \in pending :
+          IF NeedsUnlink(fs, sc, v)
+            THEN LET u == Unlink(fs, v.to) IN           \* first half: remove_file
+                 /\ pending' = pending \ {v}
+                 /\ fs' = u.fs
+                 /\ IF u.ok THEN half' = half \cup {v} /\ st' = st ELSE half' = half /\ st' = "fail"
+            ELSE LET r == ExecOp(fs, sc, v) IN
+                 /\ pending' = pending \ {v}
+                 /\ fs' = r.fs
+                 /\ st' = IF r.ok THEN st ELSE "fail"
+                 /\ half' = half
+     \/ \E v \in half :                                 \* second half: mknod
+          LET r == Mknod(fs, v.to, v.k, v.c) IN
+          /\ half' = half \ {v} /\ fs' = r.fs /\ st' = (IF r.ok THEN st ELSE "fail") /\ pending' = pending
   /\ UNCHANGED <<sc, visited, exit, vis, refr, prot>>
 
 Finish ==
-  \/ /\ st = "walk" /\ visited = vis /\ pending = {}
-     /\ st' = "done" /\ exit' = 0 /\ UNCHANGED <<sc, fs, visited, pending, vis, refr, prot>>
+  \/ /\ st = "walk" /\ visited = vis /\ pending = {} /\ half = {}
+     /\ st' = "done" /\ exit' = 0 /\ UNCHANGED <<sc, fs, visited, pending, half, vis, refr, prot>>
   \/ /\ st = "fail"
-     /\ st' = "done" /\ exit' = 1 /\ UNCHANGED <<sc, fs, visited, pending, vis, refr, prot>>
+     /\ st' = "done" /\ exit' = 1 /\ UNCHANGED <<sc, fs, visited, pending, half, vis, refr, prot>>
 
 Done == st = "done" /\ UNCHANGED vars
 
